@@ -94,7 +94,7 @@ PROPS = {
         not_covered=[
             'the Interceptor itself is an arbitrary relation (any function of the request); the inner service is seen through a ghost log of the requests it was called with (A-tower-01)',
             'ResponseBody::{poll_frame,is_end_stream} are under contract (a veto response has no body frames, a forwarded body is forwarded frame by frame); size_hint is not',
-            'InterceptorLayer / generated client-server wiring that installs the InterceptedService',
+            'InterceptorLayer::layer and InterceptedService::new are under contract (the layer installs its interceptor around the service; Clone of the interceptor is assumed to decide the same, A-core-28); the generated client / server constructors (with_interceptor) that call them are tonic-build output and are not',
         ]),
     'C04': dict(
         witness=[dict(append_to='tonic/src/status.rs', module='replay/status_witness.rs', crate='tonic', filter='verif_witness_status', features=['--features', 'gzip,deflate,zstd'])],
